@@ -1,12 +1,15 @@
 package snapshot
 
 // Native sweep (not part of the check; run by hand: `./bin/symgo nativetest C08 TestVerifSweepC08`).
-// Every (shape, crash point of the first start, crash point of the restart) of the two entries is
-// executed on the real file system with real SQLite / gzip files, the crash points driven from
-// the real call sites; no assertion may fail (witnesses of the recorded finding are counted).
-// The "PTS" lines (number of crash points of the restart after each first crash) are compared
-// with the same lines of the symbolic run (VERIF_PRINT=1): the model and the real calls agree on
-// where the crash points are.
+// Every (shape, crash point of the first start - before the call and every way of dying inside it
+// that the quick tier explores -, crash point of the restart) of the two entries is executed on the
+// real file system with real SQLite / gzip files, the crash points driven from the real call sites;
+// no assertion may fail. The "PTS" lines (what is on disk after the first crash, and the number of
+// crash points of the restart after it) are compared with the same lines of the symbolic run
+// (`VERIF_PRINT=1 ./bin/symgo check -prop C08 -tier quick 2>&1 | grep PTS | sort -u`): the model and
+// the real calls agree on where the crash points are and on what a crash inside a call leaves.
+// VERIF_SWEEP_TIER=thorough sweeps the whole-call crash points of the thorough variants instead
+// (state files without database data, older snapshot without state file).
 
 import (
 	"encoding/json"
@@ -37,55 +40,91 @@ func vSweepRun(f func(), vals map[string]any) (outcome []string, pruned bool) {
 
 func vNum(i int) json.Number { return json.Number(fmt.Sprint(i)) }
 
-func vSweepEntry(t *testing.T, name string, f func(), variants []map[string]any) {
+func vSweepEntry(t *testing.T, name string, f func(), variants []map[string]any, parts bool) {
 	runs, findings := 0, 0
+	run := func(variant map[string]any, at, part0, at2 int) (pruned bool) {
+		vals := map[string]any{"crashAt": vNum(at), "crashPart0": vNum(part0), "crashInRestart0": vNum(at2)}
+		for k, v := range variant {
+			vals[k] = v
+		}
+		vPTSKey = ""
+		out, pruned := vSweepRun(f, vals)
+		runs++
+		for _, o := range out {
+			if strings.HasPrefix(o, "finding C08-resume-after-move-into-place") {
+				findings++
+			} else if strings.HasPrefix(o, "violated") || strings.HasPrefix(o, "panic") || strings.HasPrefix(o, "finding") {
+				t.Errorf("%s %v crashAt=%d crashPart0=%d crashInRestart0=%d: %s", name, variant, at, part0, at2, o)
+			}
+		}
+		return pruned
+	}
 	for _, variant := range variants {
 		for at := 0; ; at++ {
-			restartPoints, ran := 0, false
-			for at2 := 0; ; at2++ {
-				vals := map[string]any{"crashAt": vNum(at), "crashInRestart0": vNum(at2)}
-				for k, v := range variant {
-					vals[k] = v
-				}
-				out, pruned := vSweepRun(f, vals)
-				runs++
-				for _, o := range out {
-					if strings.HasPrefix(o, "finding C08-resume-after-move-into-place") {
-						findings++
-					} else if strings.HasPrefix(o, "violated") || strings.HasPrefix(o, "panic") || strings.HasPrefix(o, "finding") {
-						t.Errorf("%s %v crashAt=%d crashInRestart0=%d: %s", name, variant, at, at2, o)
+			ranAt := false
+			nPart := 0
+			for part0 := 0; part0 <= nPart; part0++ {
+				restartPoints, ran, key := 0, false, ""
+				for at2 := 0; ; at2++ {
+					pruned := run(variant, at, part0, at2)
+					if part0 == 0 && at2 == 0 && parts {
+						nPart = vPartsOffered[0]
+					}
+					if pruned {
+						break
+					}
+					ran, key = true, vPTSKey
+					restartPoints = at2
+					if vPTSNoRestartCrash {
+						restartPoints = -1
+						break
+					}
+					if restartPoints > 200 {
+						t.Fatalf("%s %v crashAt=%d: the restart never runs out of crash points", name, variant, at)
 					}
 				}
-				if pruned {
-					break
+				if !ran {
+					continue // this partial effect does not exist here (cut position outside the file)
 				}
-				ran = true
-				restartPoints = at2
+				ranAt = true
+				if restartPoints < 0 {
+					fmt.Println("VERIF-PRINT: PTS", key, "restart-points=none")
+				} else {
+					fmt.Println("VERIF-PRINT: PTS", key, fmt.Sprintf("restart-points=%d", restartPoints))
+				}
 			}
-			if !ran {
+			if !ranAt {
 				break
 			}
-			fmt.Println("VERIF-PRINT: PTS", name, variant["shape"], variant["emptyState"] == vNum(1), variant["olderWithoutState"] == vNum(1), at+1, restartPoints)
 		}
 	}
 	t.Logf("%s: %d native runs, %d witnesses of the recorded finding", name, runs, findings)
 }
 
 func TestVerifSweepC08(t *testing.T) {
-	os.Setenv("VERIF_TIER", "thorough")
-	defer os.Unsetenv("VERIF_TIER")
 	var v8, v7 []map[string]any
-	for shape := 0; shape < len(vOldShapes); shape++ {
-		v8 = append(v8, map[string]any{"shape": vNum(shape)})
-		for empty := 0; empty < 2; empty++ {
-			for without := 0; without < 2; without++ {
-				if shape == 0 && without == 1 {
-					continue
+	if os.Getenv("VERIF_SWEEP_TIER") == "thorough" {
+		os.Setenv("VERIF_TIER", "thorough")
+		defer os.Unsetenv("VERIF_TIER")
+		for shape := 0; shape < len(vOldShapes); shape++ {
+			v8 = append(v8, map[string]any{"shape": vNum(shape), "deep": vNum(1)})
+			for empty := 0; empty < 2; empty++ {
+				for without := 0; without < 2; without++ {
+					if shape == 0 && without == 1 {
+						continue
+					}
+					v7 = append(v7, map[string]any{"shape": vNum(shape), "emptyState": vNum(empty), "olderWithoutState": vNum(without)})
 				}
-				v7 = append(v7, map[string]any{"shape": vNum(shape), "emptyState": vNum(empty), "olderWithoutState": vNum(without)})
 			}
 		}
+		vSweepEntry(t, "VerifC08Upgrade8To10", VerifC08Upgrade8To10, v8, false)
+		vSweepEntry(t, "VerifC08FromV7", VerifC08FromV7, v7, false)
+		return
 	}
-	vSweepEntry(t, "VerifC08Upgrade8To10", VerifC08Upgrade8To10, v8)
-	vSweepEntry(t, "VerifC08FromV7", VerifC08FromV7, v7)
+	for shape := 0; shape < len(vOldShapes); shape++ {
+		v8 = append(v8, map[string]any{"shape": vNum(shape)})
+		v7 = append(v7, map[string]any{"shape": vNum(shape)})
+	}
+	vSweepEntry(t, "VerifC08Upgrade8To10", VerifC08Upgrade8To10, v8, true)
+	vSweepEntry(t, "VerifC08FromV7", VerifC08FromV7, v7, true)
 }
